@@ -78,6 +78,9 @@ def install(reg):
                1: LoopSpec(invariants=[("no-error-while-validating-the-trailer", "self.error is None")])},
         modifies=["self.chunk_remainder", "self.validate_chunk_end", "self.control_line", "self.chunk_end", "self.all_chunks_received",
                   "self.trailer", "self.completed", "self.error", "self.buf.view"]))
+    # the trailer section is validated line by line, and the lines are its CRLF-separated pieces: cutting it anywhere else (at a bare LF or a bare
+    # CR, as every "line boundary" splitter does) lets a section through whose lines a downstream reader delimits differently
+    reg.funcs["receiver.ChunkedReceiver.received"].loops[1].iterates = ("C01-the-trailer-section-is-cut-at-crlf-only", "\r\n", "trailer[:pos - 4]")
     reg.add(FuncContract("receiver.ChunkedReceiver.__len__", returns=Int, ensures=[("len", "result == len(self.buf.view)")]))
     reg.inline.add("utilities.find_double_newline")
     from vlib.regex_facts import RegexFacts
